@@ -81,6 +81,31 @@ Section CntMap.
     - apply eqb_ok in E1. apply (eqb_neq eqa eqa_ok) in E2. exfalso; apply E2. subst y. apply Hgf.
     - apply eqa_ok in E2. apply (eqb_neq eqb eqb_ok) in E1. exfalso; apply E1. subst h. now rewrite Hfg.
   Qed.
+
+  (* all multiplicities even is preserved by any map *)
+  Lemma even_push (f : A -> B) l :
+    (forall x, exists k, cnt eqa x l = 2 * k) -> forall y, exists k, cnt eqb y (map f l) = 2 * k.
+  Proof.
+    assert (G : forall n l, (length l <= n)%nat ->
+              (forall x, exists k, cnt eqa x l = 2 * k) -> forall y, exists k, cnt eqb y (map f l) = 2 * k).
+    { induction n as [|n IH]; intros l0 Hlen Hev y.
+      - destruct l0; [exists 0; reflexivity | cbn in Hlen; lia].
+      - destruct l0 as [|x l']; [exists 0; reflexivity|].
+        assert (Hin : In x l').
+        { destruct (in_dec (dec eqa eqa_ok) x l') as [|N]; [assumption|].
+          destruct (Hev x) as [k Hk]. cbn [cnt] in Hk. rewrite (eqb_refl eqa eqa_ok), (cnt_notin eqa eqa_ok _ _ N) in Hk. lia. }
+        apply in_split in Hin as (l1 & l2 & ->).
+        assert (Hlen' : (length (l1 ++ l2) <= n)%nat).
+        { cbn [length] in Hlen. rewrite app_length in *. cbn [length] in Hlen. lia. }
+        assert (Hev' : forall z, exists k, cnt eqa z (l1 ++ l2) = 2 * k).
+        { intros z. destruct (Hev z) as [k Hk]. cbn [cnt] in Hk. rewrite cnt_app in *. cbn [cnt] in Hk.
+          exists (k - if eqa z x then 1 else 0). destruct (eqa z x); lia. }
+        destruct (IH _ Hlen' Hev' y) as [k Hk].
+        exists (k + if eqb y (f x) then 1 else 0).
+        cbn [map cnt]. rewrite map_app in *. cbn [map]. rewrite cnt_app in *. cbn [cnt].
+        destruct (eqb y (f x)); lia. }
+    intros H. apply (G (length l) l (le_n _) H).
+  Qed.
 End CntMap.
 
 (* ------------------------------------------------------------------ directed edges *)
@@ -229,6 +254,10 @@ Section Bal.
     - exists k. change ((a, b) :: filter (fun e => negb (zero_length e)) l) with ([(a, b)] ++ filter (fun e => negb (zero_length e)) l).
       rewrite deg_app, IH. ring.
   Qed.
+  (* end points of all segments, with multiplicity *)
+  Definition endpoints (l : list (V * V)) : list V := starts l ++ ends l.
+  Lemma deg_endpoints l v : deg l v = cnt veqb v (endpoints l).
+  Proof. unfold deg, endpoints. now rewrite cnt_app. Qed.
   Lemma kept_segments_nonzero l e : In e (filter (fun e => negb (zero_length e)) l) -> fst e <> snd e.
   Proof.
     intros H. apply filter_In in H as [_ H]. apply negb_true_iff in H. now apply (eqb_neq veqb veqb_ok) in H.
@@ -258,6 +287,15 @@ Section Ident.
     replace (map (@revE W) (map mapE l)) with (map mapE (map (@revE V) l)).
     - now apply Permutation_map.
     - rewrite !map_map. apply map_ext. intros [a b]. reflexivity.
+  Qed.
+  (* even degree everywhere is preserved by any vertex map *)
+  Lemma identification_preserves_even_degree l :
+    (forall v, exists k, deg veqb l v = 2 * k) -> forall w, exists k, deg weqb (map mapE l) w = 2 * k.
+  Proof.
+    intros H w. rewrite (deg_endpoints weqb). unfold endpoints, starts, ends. rewrite !map_map. cbn [mapE fst snd].
+    rewrite <- (map_map fst phi), <- (map_map snd phi), <- map_app.
+    apply (even_push veqb veqb_ok weqb). intros v. destruct (H v) as [k Hk]. exists k.
+    rewrite <- Hk. rewrite (deg_endpoints veqb). reflexivity.
   Qed.
   Lemma identification_preserves_closed2 l : closed2 veqb l -> closed2 weqb (map mapE l).
   Proof.
